@@ -186,7 +186,7 @@ def run(rep, tier, seed, replay=None):
             ml = [replay["merge_line"]]; mmeta = [tuple(replay["merge_meta"])]
         else:
             nm = 25 if tier == "quick" else 200
-            base = [j for j in jobs if len(j[0]["subsets"]) <= 5][:nm]
+            base = [j for j in jobs if len(j[0]["subsets"]) <= 5 and not j[0].get("no_model")][:nm]
             for c, _ in base:
                 # a second dataset of the same template, and one of a different template
                 try:
